@@ -9,6 +9,7 @@ import time
 
 import common
 from harness import pogen
+from harness import glue_lib
 
 TRUSTED = [
     'Coq 8.16.1 kernel (coqc, vm_compute); coqchk in thorough tier',
@@ -21,6 +22,10 @@ TRUSTED = [
     'C01_every_own_error_is_caught is about that table: exceptions raised by code outside lib/ other than the listed implicit raisers (e.g. UnicodeError from the idna codec, D11; '
     'RecursionError, D12; KeyError / IndexError / TypeError from subscripts and operators) are not in it; notes/C01.md lists what it does not establish',
     'runtime behaviour (exit status, stderr, wall time, recursion limit, regex backtracking, memory) is explored through the real CLI, not modelled',
+    'Model/Check.v (hand-written model of the body of Checker.check: stat guard, dispatch, two attempts, except/finally clauses, ctx, order of the sub-checks); '
+    'its inputs are oracles: the outcome of os.stat and of polib.pofile / polib.mofile (the six outcome classes of load_result), str.upper (ASCII instance in the driver); '
+    'tied to the real method by tools/harness/glue_lib.py: os.stat / polib.pofile / polib.mofile stubbed by scripted outcomes, the nine check_* methods replaced by recorders, '
+    'driver op checktop; the independent oracle of glue_lib.py (reference rule for the arguments of syntax-error-in-po-file written with string operations)',
 ]
 ASSUME = ['time bounds are measured on this machine under a per-run cap; "low-degree polynomial" is tested as t(2n)/t(n) below 4.5 (quadratic plus noise) on pumped families']
 
@@ -270,6 +275,11 @@ def check(ctx):
     build = common.coq_build()
     aud = common.audit(ctx.id, coqchk=not ctx.quick())
     report_raise_sites(ctx, build)
+    # ---- the orchestration Checker.check() itself: scripted os.stat / loader outcomes through the real method (sub-checks replaced
+    # by recorders) against Model/Check.v, and the oracle of tools/harness/glue_lib.py (what may propagate, what is tagged)
+    t_glue = time.time()
+    glue_lib.run_stream(ctx)
+    ctx.stats['glue:wall_s'] = round(time.time() - t_glue, 1)
     d = os.path.join(common.WORK, 'c01')
     shutil.rmtree(d, ignore_errors=True)
     os.makedirs(d)
@@ -357,7 +367,10 @@ def check(ctx):
         rule='generated files of every kind (hostile catalogs with 1-3 mutated slots; each component\'s malformed stream in the header field / flag / string that reaches it; '
              'escape spellings; raw byte noise and byte-mutated black-box files with po/pot/mo/gmo/other extensions; MO truncations and word corruptions) through the real CLI '
              'in batches with -l / --file-type / -j variations, culprits re-run alone: rc 0, empty stderr, every stdout line matches the line grammar, time under the cap; '
-             'pumped families (size doubling) for time growth. non-trivial = distinct generated file that was processed cleanly, or a pumped family',
+             'pumped families (size doubling) for time growth. Checker.check orchestration: product of {os.stat ok / OSError / other} x 25 paths x --file-type x outcome of the first '
+             'constructor call x outcome of the retry (file, UnicodeDecodeError with object lengths 0..100 and starts around 0 / 40 / the end / negative, moparser.SyntaxError, OSError with and '
+             'without errno over 40 message shapes, other exceptions) through the real method with stubs vs Model/Check.v, plus the oracle. '
+             'non-trivial = distinct generated file that was processed cleanly, a pumped family, or a distinct model result of the orchestration stream',
         explanation='Partial: the component no-crash theorems are about the models; exit status, stderr, recursion limits, regex cost and time are explored on the real CLI.')
 
 
